@@ -74,7 +74,8 @@ def plan(tier):
     kname = 'C03'
     ops = list(CMP) if thorough else ['equal', 'less_than', 'greater_than_or_equal']
     sc_inst = [('i32', -8, 'i32', -8, 2), ('i32', -8, 'i16', -4, 2), ('i16', -4, 'i32', -8, 2), ('u8', 0, 'i32', -20, 2),
-               ('i32', -4, 'u32', 0, 2), ('u16', 3, 'i16', 10, 2), ('i64', -30, 'i32', -8, 2), ('i32', -2, 'i32', 0, 10)]
+               ('i32', -4, 'u32', 0, 2), ('u16', 3, 'i16', 10, 2), ('i64', -30, 'i32', -8, 2), ('i32', -2, 'i32', 0, 10),
+               ('i64', 0, 'i8', -4, 2), ('u32', 0, 'i32', -4, 2)]      # larger exponent on the left with the wider / differently signed rep on the left (seed C03_2)
     if thorough:
         sc_inst += [('i8', -7, 'i8', 0, 2), ('u64', -1, 'u64', -60, 2), ('i64', 70, 'i64', 8, 2), ('u32', -31, 'u8', 0, 2), ('i16', 2, 'i64', 1, 10)]
     for (l, el, r, er, radix) in sc_inst:
